@@ -301,9 +301,9 @@ Definition has_trans (p : prof) : bool := match p_trans p with Some _ => true | 
 Definition b2z (b : bool) : Z := if b then 1 else 0.
 
 (* uint64(c[i+8]) | uint64(c[i+7])<<8 | ... | uint64(c[i+1])<<56 *)
-Definition rd_be (c : list Z) (i : Z) (k : nat) : res Z :=
-  (fix go (k : nat) (i acc : Z) : res Z :=
-     match k with O => Ok acc | S k' => do b <- idx c i; go k' (i + 1) (acc * 256 + b) end) k i 0.
+Fixpoint rd_be_go (c : list Z) (k : nat) (i acc : Z) : res Z :=
+  match k with O => Ok acc | S k' => do b <- idx c i; rd_be_go c k' (i + 1) (acc * 256 + b) end.
+Definition rd_be (c : list Z) (i : Z) (k : nat) : res Z := rd_be_go c k i 0.
 
 (* com.NewTLSConfig: the minimum version *)
 Definition tls_minver (ver : Z) : Z :=
